@@ -107,6 +107,14 @@ func (g *Gen) topValue() d128.Decimal {
 	return mk(g.r.Intn(2) == 0, c, eMax-g.r.Intn(3)*g.r.Intn(12))
 }
 
+func (g *Gen) topValueCoef() *big.Int {
+	_, _, c, _ := unmk(g.topValue())
+	if c.Sign() == 0 {
+		return big.NewInt(1)
+	}
+	return c
+}
+
 // bottomValue: the smallest magnitudes: few digits at the smallest exponents
 func (g *Gen) bottomValue() d128.Decimal {
 	c := big.NewInt(int64(1 + g.r.Intn(20)))
@@ -281,7 +289,20 @@ func (g *Gen) quoSolved() (x, y d128.Decimal) {
 func (g *Gen) quoRemStructured() (x, y d128.Decimal) {
 	var c1, c2 *big.Int
 	gap := 0
-	switch g.r.Intn(4) {
+	switch g.r.Intn(6) {
+	case 4: // |x| and |y| of the same order: the integer quotient is 0..9; the divisor has very few digits
+		c1 = g.fullCoef()
+		if g.r.Intn(2) == 0 {
+			c1 = g.topValueCoef()
+		}
+		c2 = big.NewInt(int64(1 + g.r.Intn(12)))
+		gap = -(len(c1.String()) - len(c2.String()) + g.r.Intn(3) - 1)
+	case 5: // a long integer quotient whose 35-digit prefix lies in the partly-35-digit band [2^113, largest coefficient]
+		c2 = randDigits(g.r, 21+g.r.Intn(13))
+		band := new(big.Int).Add(new(big.Int).Lsh(big.NewInt(1), 113), new(big.Int).Rand(g.r, new(big.Int).Sub(cMax, new(big.Int).Lsh(big.NewInt(1), 113))))
+		c1 = new(big.Int).Mul(c2, band)
+		c1.Div(c1, pow10(len(c1.String())-34))
+		gap = 36 + g.r.Intn(30)
 	case 0, 1: // d * 10^k / (10^n +- 1)
 		c1 = big.NewInt(int64(1 + g.r.Intn(999)))
 		n := 3 + g.r.Intn(32)
@@ -319,6 +340,16 @@ func (g *Gen) quoRemStructured() (x, y d128.Decimal) {
 	if e1 > eMax {
 		e1 = eMax
 		e2 = clampExp(e1 - gap)
+	}
+	if e1 < eMin {
+		e1 = eMin
+		e2 = clampExp(e1 - gap)
+	}
+	if c1.Sign() <= 0 {
+		c1 = big.NewInt(1)
+	}
+	if c1.Cmp(cMax) > 0 {
+		c1 = new(big.Int).Set(cMax)
 	}
 	return mk(g.r.Intn(2) == 0, c1, e1), mk(g.r.Intn(2) == 0, c2, e2)
 }
